@@ -18,8 +18,9 @@
    ("fix: HSplit/VSplit hung or raised ValueError with zero-weight
    children"); the _pinned theorems characterise exactly where it hung. *)
 From Coq Require Import ZArith List Bool Reals.
-From PTK Require Import Lib.Sx Model.C12_Divide Gen.C12_Huge
-     Proofs.C12_Safety Proofs.C12_Gen Proofs.C12_Termination Proofs.C12_Fixed Proofs.C12_Cache Proofs.C12_Float.
+From PTK Require Import Lib.Sx Model.C12_Divide Model.C12_Layout Model.C12_PrimFloat Gen.C12_Huge Gen.C12_FloatProbes
+     Proofs.C12_Safety Proofs.C12_Gen Proofs.C12_Termination Proofs.C12_Fixed Proofs.C12_Cache Proofs.C12_Float
+     Proofs.C12_Layout Proofs.C12_LayoutDraw Proofs.C12_LayoutMore Proofs.C12_LayoutTile Proofs.C12_Stale Proofs.C12_PrimFloat.
 Import ListNotations.
 Open Scope Z_scope.
 
@@ -71,6 +72,39 @@ Theorem C12_float_compare_exact : forall g k,
    <-> eligible g k = true).
 Proof. exact eligible_is_float_test. Qed.
 Print Assumptions C12_float_compare_exact.
+
+(* The same test on Coq's primitive binary64 floats ([prim_test]: both ints
+   converted, one division, one comparison - the kernel's IEEE 754 double
+   operations; only Uint63 and PrimFloat are imported, so no axiomatised
+   specification: Print Assumptions lists the primitive operations, not
+   logical axioms).  (1) exhaustively for taken <= 40, i*weight <= 400,
+   max_weight <= 60 it is the model's exact integer test; *)
+Theorem C12_float_prim_small_exact : forall taken iw maxw,
+  0 <= taken <= 40 -> 0 <= iw <= 400 -> 1 <= maxw <= 60 ->
+  prim_test taken iw maxw = exact_test taken iw maxw.
+Proof. exact prim_small_exact. Qed.
+Print Assumptions C12_float_prim_small_exact.
+
+(* (2) on every probe of the table regenerated on each run - CPython's own
+   answer to `taken < i*weight / float(max_weight)` on more than 5000
+   adversarial triples (quotients next to an integer, operands next to
+   powers of two, below and beyond 2^53) - Coq's binary64 evaluation gives
+   CPython's answer, and below 2^53 so does the model's integer test; *)
+Theorem C12_float_probes_agree :
+  (5000 <= length float_probes)%nat /\
+  forall t iw mw r, In (t, iw, mw, r) float_probes ->
+    prim_test t iw mw = (r =? 1) /\
+    (iw < 2 ^ 53 -> mw < 2 ^ 53 -> exact_test t iw mw = (r =? 1)).
+Proof. exact (conj probes_many probes_agree). Qed.
+Print Assumptions C12_float_probes_agree.
+
+(* (3) beyond 2^53 the float test is not the exact test (2^53 + 1 converts
+   to 2^53): the hypothesis of C12_float_compare_exact cannot be dropped.
+   Reaching it needs weights or round counts of the order 2^53. *)
+Theorem C12_float_beyond_2p53_refuted :
+  exists taken iw maxw, 0 <= taken /\ 0 < maxw /\ prim_test taken iw maxw <> exact_test taken iw maxw.
+Proof. exact float_test_beyond_2p53_differs. Qed.
+Print Assumptions C12_float_beyond_2p53_refuted.
 
 (* 'too small' exactly when the minimums do not fit (any fuel, any weights). *)
 Theorem C12_too_small : forall fuel done ds avail,
@@ -315,6 +349,163 @@ Theorem C12_window_preferred_total : forall axis mn mx w p cp de margin ignore d
             dmin d = dmin d0 /\ dweight d = dweight d0 /\ dmax d <= dmax d0.
 Proof. exact window_preferred_total. Qed.
 Print Assumptions C12_window_preferred_total.
+
+(* ------------------------------------------------------------------ *)
+(* Nested layouts (Model/C12_Layout.v): a [tree] is a leaf reporting a fixed
+   (width, height) requirement or an HSplit/VSplit (orientation, alignment,
+   padding, children).  [wf t]: every leaf requirement and every padding is
+   a Dimension as the constructor makes them.  [pw t] / [ph fuel t width]
+   are preferred_width / preferred_height(width) of the real classes
+   (VSplit.preferred_height divides the widths and asks every child for
+   its height at its divided width); [write fuel done t x y w h] is
+   write_to_screen at WritePosition(x, y, w, h): the list of regions drawn
+   (leaves, padding / alignment / remaining-space / too-small windows) in
+   drawing order, or a code (3 = a divide loop out of fuel). *)
+
+(* Every Dimension reported anywhere in a tree is well-formed:
+   preferred_width always returns 0 <= min <= preferred <= max ... *)
+Theorem C12_tree_width_valid : forall t, wf t -> exists d, pw t = RDim d /\ valid d.
+Proof. exact pw_valid. Qed.
+Print Assumptions C12_tree_width_valid.
+
+(* ... preferred_height never raises: whatever the fuel it is out of fuel or
+   a well-formed Dimension ... *)
+Theorem C12_tree_height_valid : forall fuel t width, wf t ->
+  ph fuel t width = RFuel \/ exists d, ph fuel t width = RDim d /\ valid d.
+Proof. intros fuel t width H. exact (ph_good fuel t H width). Qed.
+Print Assumptions C12_tree_height_valid.
+
+(* ... and it terminates: some fuel suffices, and every larger fuel gives
+   the same well-formed Dimension (nested divisions included). *)
+Theorem C12_tree_height_total : forall t width, wf t ->
+  exists f0 d, valid d /\ forall fuel, (f0 <= fuel)%nat -> ph fuel t width = RDim d.
+Proof.
+  intros t width H. destruct (ph_total t H width) as (f0 & d & Hv & Hd). exists f0, d. auto.
+Qed.
+Print Assumptions C12_tree_height_total.
+
+(* Drawing.  Whatever write_to_screen draws for a nested layout at
+   WritePosition(x, y, w, h) (any offsets, w, h >= 0, any nesting, any
+   alignment / padding, app done or not): every region lies inside
+   (x, y, w, h) with non-negative extents, and the regions are pairwise
+   separated by a horizontal or a vertical line - so no two children,
+   however deeply nested, are drawn over each other. *)
+Theorem C12_tree_draw_inside_disjoint : forall fuel done t x y w h rs,
+  wf t -> 0 <= w -> 0 <= h -> write fuel done t x y w h = inl rs ->
+  Forall (inside x y w h) rs /\ ForallOrdPairs disj rs.
+Proof. intros fuel done t x y w h rs Hwf Hw Hh Hr. exact (write_good fuel done t Hwf x y w h rs Hw Hh Hr). Qed.
+Print Assumptions C12_tree_draw_inside_disjoint.
+
+(* One split: each entry of _all_children is drawn with exactly its divided
+   size at the sum of the sizes before it, across the full cross extent of
+   the parent region (HSplit: (x, y + sum, w, size); VSplit: (x + sum, y,
+   size, h)). *)
+Theorem C12_entry_region : forall o kind x y w h sizes e,
+  entry_rect o kind x y w h sizes e =
+  if o =? 0 then mkrect kind x (y + zsum (firstn e sizes)) w (nth e sizes 0)
+  else mkrect kind (x + zsum (firstn e sizes)) y (nth e sizes 0) h.
+Proof. intros. unfold entry_rect, piece, axis_start. destruct (o =? 0); reflexivity. Qed.
+Print Assumptions C12_entry_region.
+
+(* The drawing uses entry [kid_entry al idx] = (1 if there is a leading
+   alignment window) + 2 * idx of the sizes for the idx-th child.  That IS
+   the child's entry in _all_children (the list that was divided), the entry
+   after it is a padding window, and the list has children + paddings +
+   alignment windows entries. *)
+Theorem C12_all_children_entries : forall al pad cs,
+  (cs <> [] ->
+   length (all_children al pad cs) = (lead al + 2 * length cs - 1 + (if trail al then 1 else 0))%nat) /\
+  (forall idx d0, (idx < length cs)%nat -> nth (kid_entry al idx) (all_children al pad cs) d0 = nth idx cs d0) /\
+  (forall idx d0, (S idx < length cs)%nat -> nth (S (kid_entry al idx)) (all_children al pad cs) d0 = pad).
+Proof. exact all_children_entries. Qed.
+Print Assumptions C12_all_children_entries.
+
+(* Hence every child - leaf or nested split, at any depth - is handed exactly
+   its divided size, and that size is within the min..max the child itself
+   reported to the split ([ds] = what the children reported along the axis). *)
+Theorem C12_child_size_within_reported : forall fuel done al pad ds avail sizes idx,
+  valid pad -> Forall valid ds -> (idx < length ds)%nat ->
+  divide fuel done (all_children al pad ds) avail = Sizes sizes ->
+  dmin (nth idx ds flex) <= nth (kid_entry al idx) sizes 0 <= dmax (nth idx ds flex) /\
+  length sizes = length (all_children al pad ds) /\ (kid_entry al idx < length sizes)%nat.
+Proof. exact kid_size_bounds. Qed.
+Print Assumptions C12_child_size_within_reported.
+
+(* Drawing a nested layout terminates: some fuel suffices, every larger fuel
+   draws the same regions, and no exception is possible. *)
+Theorem C12_tree_draw_total : forall done t x y w h, wf t ->
+  exists f0 rs, forall fuel, (f0 <= fuel)%nat -> write fuel done t x y w h = inl rs.
+Proof. intros done t x y w h H. exact (write_total done t H x y w h). Qed.
+Print Assumptions C12_tree_draw_total.
+
+(* The regions drawn fill the region of the layout: their areas add up to
+   w * h ([full t]: no VSplit without children, which draws nothing at all).
+   With "inside" and "pairwise disjoint" above this makes every drawing an
+   exact tiling: adjacent regions without gaps or overlaps. *)
+Theorem C12_tree_draw_fills : forall fuel done t x y w h rs,
+  wf t -> full t -> 0 <= w -> 0 <= h -> write fuel done t x y w h = inl rs ->
+  zsum (map (fun r => rw r * rh r) rs) = w * h.
+Proof. intros fuel done t x y w h rs H1 H2 Hw Hh Hr. exact (write_fills fuel done t H1 H2 x y w h rs Hw Hh Hr). Qed.
+Print Assumptions C12_tree_draw_fills.
+
+(* ... and without the hypothesis it fails: an empty VSplit leaves its whole
+   region unpainted (VSplit.write_to_screen returns at once; an empty HSplit
+   paints its remaining-space window) *)
+Theorem C12_tree_draw_fills_empty_vsplit_refuted :
+  ~ (forall fuel done t x y w h rs, wf t -> 0 <= w -> 0 <= h -> write fuel done t x y w h = inl rs ->
+       zsum (map (fun r => rw r * rh r) rs) = w * h).
+Proof. exact write_fills_needs_full. Qed.
+Print Assumptions C12_tree_draw_fills_empty_vsplit_refuted.
+
+(* a nested example, evaluated: HSplit([VSplit([A, B], padding=1), C]) at
+   WritePosition(2, 3, 9, 4) *)
+Example C12_tree_example :
+  write 200 false
+    (Node 0 3 (mkdim 0 0 0 1)
+       [Node 1 3 (mkdim 1 1 1 1) [Leaf 0 (mkdim 1 HUGE 2 1) (mkdim 1 2 2 1); Leaf 1 (mkdim 0 3 3 1) (mkdim 0 HUGE 1 1)];
+        Leaf 2 (mkdim 0 HUGE 0 1) (mkdim 1 1 1 1)]) 2 3 9 4
+  = inl [mkrect 0 2 3 5 2; mkrect (-1) 7 3 1 2; mkrect 1 8 3 3 2;      (* the VSplit: A, its padding column, B *)
+         mkrect (-1) 2 5 9 0; mkrect 2 2 5 9 1;                          (* the HSplit's padding row (height 0), C *)
+         mkrect (-3) 2 6 9 1].                                            (* nobody can grow: remaining-space window *)
+Proof. vm_compute. reflexivity. Qed.
+Print Assumptions C12_tree_example.
+
+(* ------------------------------------------------------------------ *)
+(* split.align / split.padding assigned after construction: they are read
+   when the _all_children getter runs (a cache miss) and are not part of the
+   key.  [render_steps2]: renders of one split, each preceded by assignments
+   of align, padding and children; [render_fresh2]: what a split reading
+   its current align / padding at every render would draw. *)
+
+(* with align and padding left alone this is the model of the earlier
+   theorems (C12_renders_ignore_cache) *)
+Theorem C12_align_padding_fixed : forall fuel orient done align pad pool avail start idss,
+  render_steps2 fuel orient done pool avail start None (map (fun ids => (align, pad, ids)) idss) =
+  render_steps fuel orient done align pad pool avail start None (map (fun ids => ([], ids)) idss).
+Proof. exact render_steps2_fixed. Qed.
+Print Assumptions C12_align_padding_fixed.
+
+(* a render whose children tuple is not the cached key uses the current
+   align / padding; a render with the cached key uses those of the miss *)
+Theorem C12_align_padding_from_last_miss : forall align pad c ids,
+  fst (cache2_get align pad c ids) =
+  match c with
+  | Some (k, v) => if zlist_eqb k ids then v else (align, pad)
+  | None => (align, pad)
+  end.
+Proof. exact cache2_get_spec. Qed.
+Print Assumptions C12_align_padding_from_last_miss.
+
+(* hence an assignment to split.padding (or split.align) alone is NOT seen
+   by the next render: the cache is not transparent for these two
+   attributes (an observation about the API; the division performed is
+   still a correct division of the requirement list that is used) *)
+Theorem C12_align_padding_stale_refuted :
+  ~ (forall fuel orient done pool avail start steps,
+       render_steps2 fuel orient done pool avail start None steps =
+       render_fresh2 fuel orient done pool avail start steps).
+Proof. exact render_steps2_stale. Qed.
+Print Assumptions C12_align_padding_stale_refuted.
 
 (* ------------------------------------------------------------------ *)
 (* The function before the fix (divide_pinned): where exactly it hung. *)
